@@ -353,11 +353,16 @@ fn run_one(sc: &Value, attempt: u64) -> (Vec<Value>, Value) {
     let kind = s(sc, "kind", "c17").to_string();
     let _ = rustrtc::verif::take_events();
     rustrtc::verif::set_enabled(true);
-    let rt = tokio::runtime::Builder::new_multi_thread()
-        .worker_threads(3)
-        .enable_all()
-        .build()
-        .unwrap();
+    // runtime flavour is part of the scenario: "current" = everything on one thread
+    let rt = if s(sc, "rt", "multi") == "current" {
+        tokio::runtime::Builder::new_current_thread().enable_all().build().unwrap()
+    } else {
+        tokio::runtime::Builder::new_multi_thread()
+            .worker_threads(3)
+            .enable_all()
+            .build()
+            .unwrap()
+    };
     let sc2 = sc.clone();
     let rec = Arc::new(Recorder {
         all: parking_lot::Mutex::new(vec![]),
